@@ -110,7 +110,7 @@ def _compile_cmd(src: str, variant_flags: list[str], extra: list[str]) -> list[s
 def compile_obj(src: str, variant: str, extra: tuple[str, ...] = ()) -> str:
     flags = VARIANTS[variant]
     cmd = _compile_cmd(src, flags, list(extra))
-    key = _sha(" ".join(cmd), _read(src), header_digest(not src.startswith(REPO + "/")))
+    key = _sha(" ".join(cmd), _read(src), header_digest((not src.startswith(REPO + "/")) or ("-include" in extra)))
     out = os.path.join(CACHE, "obj", variant, key + ".o")
     if os.path.exists(out):
         return out
@@ -167,21 +167,47 @@ def ensure(variant: str = "rel", with_support: bool = True) -> str:
 
 
 def ensure_exe(name: str, sources: list[str], variant: str = "rel", extra: tuple[str, ...] = (),
-               link_lib: bool = True, libs: tuple[str, ...] = ()) -> str:
-    """Build a native driver (sources relative to /verif/native) against the tree library."""
+               link_lib: bool = True, libs: tuple[str, ...] = (), sched: tuple[str, ...] = (),
+               static: bool = False, per_source: dict | None = None) -> str:
+    """Build a native driver (sources relative to /verif/native) against the tree library.
+
+    sched: repo-relative sources of the code under test that are compiled *unmodified* with the
+    scheduler prelude force-included (-include vsched/vsched_prelude.h) and linked into the
+    executable together with the vsched runtime.  static=True links every library object into
+    the executable (the scheduled objects replace the plain ones), so that internal calls of the
+    engine reach the scheduled code too.  per_source: {repo-relative source: (extra flags)}.
+    """
+    per_source = per_source or {}
     with _lock:
         srcs = [s if os.path.isabs(s) else os.path.join(NATIVE, s) for s in sources]
         objs = compile_many(srcs, variant, extra)
-    lib = ensure(variant) if link_lib else None
+        sched_objs = []
+        if sched or per_source:
+            # -finstrument-functions: function entries are the progress indicator of the scheduler's spin rule
+            pre = ("-include", os.path.join(NATIVE, "vsched", "vsched_prelude.h"), "-finstrument-functions-after-inlining")
+            for rel in sched:
+                sched_objs.append(compile_obj(os.path.join(REPO, rel), variant, tuple(pre) + tuple(per_source.get(rel, ()))))
+            for rel, fl in per_source.items():
+                if rel not in sched:
+                    sched_objs.append(compile_obj(os.path.join(REPO, rel), variant, tuple(fl)))
+            objs = objs + sched_objs + [compile_obj(os.path.join(NATIVE, "vsched", "vsched_rt.cc"), variant)]
+        libobjs = []
+        if static:
+            replaced = {os.path.join(REPO, r) for r in list(sched) + list(per_source)}
+            from . import gen_wrappers
+            wcc, _ = gen_wrappers.ensure()
+            lsrcs = [s for s in lib_sources() if s not in replaced] + [os.path.join(NATIVE, "support.cc"), wcc]
+            libobjs = compile_many(lsrcs, variant)
+    lib = ensure(variant) if (link_lib and not static) else None
     with _lock:
-        key = _sha(name, variant, lib or "", *objs, *libs)
+        key = _sha(name, variant, lib or "", *objs, *libobjs, *libs)
         outdir = os.path.join(CACHE, "exe", variant, key)
         out = os.path.join(outdir, name)
         if os.path.exists(out):
             return out
         os.makedirs(outdir, exist_ok=True)
         tmp = out + ".%d.tmp" % os.getpid()
-        cmd = [CXX, "-o", tmp] + objs
+        cmd = [CXX, "-o", tmp] + objs + libobjs
         if lib:
             cmd += [lib, "-Wl,-rpath," + os.path.dirname(lib)]
         cmd += list(libs) + _link_flags(variant)
